@@ -59,4 +59,40 @@ let () = iter_lines (fun line ->
        | FFuel -> Buffer.add_string b " r=fuel");
       if !missed then Buffer.add_string b " oracle-miss";
       print_endline (Buffer.contents b)
+  (* ---- appended case kinds (Conn level, plain frames inside compressed mode) ---- *)
+  | ["plainz"; thr; id; n] ->
+      Printf.printf "plainz %s %s %s %s\n" thr id n
+        (if plain_accepts (z_of_dec id) (n_of_dec n) then "ok" else "err")
+  | "conn" :: oldcap :: trail :: nev :: toks ->
+      (* events: P id datahex zhex | T thr | C a_eco a_deco b_eco b_deco ; zhex = "-": frame not compressed.
+         deflate / inflate: the table of (id ++ payload, zlib stream) pairs of this case *)
+      let table = ref [] in
+      let rec evs k toks =
+        if k = 0 then [] else
+        match toks with
+        | "P" :: id :: data :: z :: rest ->
+            let idz = z_of_dec id and d = bytes_of_hex data in
+            if z <> "-" then table := (write32 idz @ d, bytes_of_hex z) :: !table;
+            EPacket ((if k mod 2 = 0 then stale else []), (if k mod 3 = 0 then stale else []), (idz, d)) :: evs (k - 1) rest
+        | "T" :: t :: rest -> EThreshold (z_of_dec t) :: evs (k - 1) rest
+        | "C" :: a :: b :: c :: d :: rest -> ECipher (n_of_dec a, n_of_dec b, n_of_dec c, n_of_dec d) :: evs (k - 1) rest
+        | _ -> failwith "bad conn events" in
+      let es = evs (int_of_string nev) toks in
+      let defl x = (match List.assoc_opt x !table with Some z -> z | None -> missed := true; []) in
+      let infl z = (match List.find_opt (fun (_, z') -> z' = z) !table with Some (x, _) -> Some x | None -> None) in
+      let (wire, ca) = send_all toy_enc defl wrap_conn2 es in
+      let old = { r_id = z_of_int 77; r_data = []; r_cap = n_of_dec oldcap } in
+      let b = Buffer.create 256 in
+      Buffer.add_string b (Printf.sprintf "conn %s %s wire=%s" oldcap nev (hex_of_bytes wire));
+      (match recv_all toy_dec infl wrap_conn2 es old (wire @ bytes_of_hex trail) with
+       | FOk ((rs, cb), rest) ->
+           Buffer.add_string b " r=ok";
+           List.iter (fun r -> Buffer.add_string b
+             (Printf.sprintf " %s %s %s" (dec_of_z r.r_id) (dec_of_n r.r_cap) (hex_of_bytes r.r_data))) rs;
+           Buffer.add_string b (Printf.sprintf " left=%d thr=%s/%s" (List.length rest) (dec_of_z ca.k_thr) (dec_of_z cb.k_thr))
+       | FErr _ -> Buffer.add_string b " r=err"
+       | FPanic _ -> Buffer.add_string b " r=panic"
+       | FFuel -> Buffer.add_string b " r=fuel");
+      if !missed then Buffer.add_string b " oracle-miss";
+      print_endline (Buffer.contents b)
   | _ -> Printf.printf "?? %s\n" (if String.length line > 80 then String.sub line 0 80 else line))
